@@ -808,7 +808,18 @@ func (fn *Fn) notInSeen(fs *FactSet, m *types.Var, key string) bool {
 		}
 		if v := fn.varOf(e); v != nil {
 			defs := fn.defsOf(v)
-			return len(defs) == 1 && defs[0].multi && defs[0].idx == 1 && isLookup(defs[0].rhs)
+			if len(defs) != 1 || !isLookup(defs[0].rhs) {
+				return false
+			}
+			if defs[0].multi {
+				return defs[0].idx == 1 // _, ok := m[k]
+			}
+			// present := m[k] on a map to bool
+			if mt, ok := m.Type().Underlying().(*types.Map); ok {
+				if b, ok := mt.Elem().Underlying().(*types.Basic); ok && b.Kind() == types.Bool {
+					return true
+				}
+			}
 		}
 		return false
 	})
